@@ -1132,6 +1132,27 @@ func TestVerifC06(t *testing.T) {
 			sp.Reqs = []c06Req{rq}
 			sp.Scripts = [][]c06Beh{h.randScript(rng, rq, 4, allowTimeout, true)}
 		}
+		// One GetSamples call has ONE context. A slot that reaches its "deadline" step waits for the other slots to reach
+		// theirs; if another slot meanwhile sits in a "timeout" step (a real per-attempt timer), the waiting attempt
+		// times out as well and goes on to its next scripted peer, which the per-slot model does not describe. Such
+		// combinations are outside what the scripts can express: timeouts are turned into INTERNAL answers there.
+		if len(sp.Scripts) > 1 {
+			hasDeadline := false
+			for _, sc := range sp.Scripts {
+				for _, b := range sc {
+					hasDeadline = hasDeadline || b.Kind == "deadline"
+				}
+			}
+			if hasDeadline {
+				for i := range sp.Scripts {
+					for j := range sp.Scripts[i] {
+						if sp.Scripts[i][j].Kind == "timeout" {
+							sp.Scripts[i][j] = c06Beh{Kind: "status", Status: int(shrexpb.Status_INTERNAL)}
+						}
+					}
+				}
+			}
+		}
 		if h.usesTimeout(sp) {
 			nTimeout++
 		}
